@@ -612,6 +612,10 @@ class Message:
             max_size = 512
         elif max_size > 65535:
             max_size = 65535
+        if self.opt is not None and self.pad and max_size >= self.pad:
+            # A padded message is a multiple of the block size, so only that much
+            # of the limit is usable (otherwise the padding itself could overflow).
+            max_size -= max_size % self.pad
         r = dns.renderer.Renderer(self.id, self.flags, max_size, origin)
         opt_reserve = self._compute_opt_reserve()
         r.reserve(opt_reserve)
